@@ -91,6 +91,10 @@ int main(void){
     if (same_scheme && same_auth && !root && (common == nS || common == nB)
         && !(lists_equal && ss.abs_path == bs.abs_path && (ss.q_a >= 0 || bs.q_a < 0))) kf = 1;
 #endif
+#ifdef KF_C10_BASEDOTS
+    /* the base path has a "." or ".." segment before its last segment: the walk counts it as a directory level */
+    if (same_scheme && same_auth && !root){ int q; for (q = 0; q + 1 < nB; q++) if (or_seg_is_dot(bt, bs.seg_a[q], bs.seg_b[q]) || or_seg_is_dotdot(bt, bs.seg_a[q], bs.seg_b[q])) kf = 1; }
+#endif
 #ifdef KF_C10_ROOTMIX
     /* no authority on either side and the paths differ in kind (absolute vs rootless): a relative reference cannot switch the kind,
        and domain-root mode makes a rootless source path absolute */
